@@ -18,7 +18,7 @@ MANIFEST = dict(
          "point of the real stack (manager + locator + spa + facade on the virtual loop against the real simulator): the harness injects async_reset() / context exit "
          "exactly when the pump task's coroutine stack is at that point - exits with a client handler that returns at once AND with one that really suspends - lets the "
          "loop settle, and compares the ledger (transports never closed, tasks alive at the instant the exit returns and later, observers left, pump alive, handler "
-         "activity after the exit, callbacks on late datagrams) with the model's prediction. The crash-point table has one entry per suspension point of the regenerated skeletons of _connect and discover (crash_points_cover_every_suspension: two independent translators agree). Also: two commands of each kind in flight when the connection is reset / the context exited; task_registry_tracks_every_task. discover_releases_endpoint_on_every_exit and awaits_inside_finally_are_the_finished_announcements (all 58 coroutines).",
+         "activity after the exit, callbacks on late datagrams) with the model's prediction. The crash-point table has one entry per suspension point of the regenerated skeletons of _connect and discover (crash_points_cover_every_suspension: two independent translators agree). Also: two commands of each kind in flight when the connection is reset / the context exited; task_registry_tracks_every_task. discover_releases_endpoint_on_every_exit and awaits_inside_finally_are_the_finished_announcements (all 58 coroutines). Prompt termination (2 s after every reset) and a reset issued by the client from inside its RF-error handler.",
     note="partial: 'closed' = close() called on the transport object the loop handed out; await points inside the standard library are collapsed to the geckolib await that "
          "contains them; error-path await points of _connect that a healthy handshake never reaches are predicted by the model but not exercised; asyncio delivering a "
          "pending cancellation at the next suspending await is assumed.",
@@ -230,6 +230,10 @@ def explore_error(scenario, origin, yielding, settle=150.0):
             async def handle_event(self, event, **kw):
                 if yielding:
                     await asyncio.sleep(0)
+                if origin == "handler" and "ERROR_RF_ERROR" in str(event) and not res.get("handler_reset_done"):
+                    # the CLIENT resets from inside its handler of an event that one of the connection's own tasks delivers
+                    res["handler_reset_done"] = True
+                    await self.async_reset()
 
             async def async_reset(self):
                 # ledger bookkeeping at the moment the reset starts: what belongs to the connection being abandoned
@@ -260,6 +264,11 @@ def explore_error(scenario, origin, yielding, settle=150.0):
                     # where the reset LANDED (C08: always IDLE with no facade, spa or descriptors)
                     rec["landed"] = {"state": str(self.spa_state).split(".")[-1], "facade": self._facade is not None,
                                      "spa": self._spa is not None, "descriptors": self._spa_descriptors is not None}
+                    # "terminates PROMPTLY": which tasks of the abandoned connection are still alive two seconds after the reset
+
+                    def snapshot(rec=rec):
+                        rec["alive_2s"] = sorted(t.get_name() for t in rec["tasks"] if not t.done())
+                    loop.call_later(2.0, snapshot)
         sim = fakenet.make_sim(SNAP)
         net = fakenet.Network(loop, sim, phases=phases, seed=1)
         loop.network = net
@@ -296,6 +305,7 @@ def explore_error(scenario, origin, yielding, settle=150.0):
                 if r["spa"] is not None and r["spa"] is not m._spa:
                     obs += len(r["spa"]._observers)
             res["observers_left"] = obs
+            res["alive_2s"] = sorted({n for r in res["resets"] for n in r.get("alive_2s", [])})
             res["reset_states"] = [r["state"] for r in res["resets"]]
             res["reset_from"] = [r["from_task"] for r in res["resets"]]
             res["reset_outcomes"] = [r.get("outcome", "never-finished") for r in res["resets"]]
@@ -423,7 +433,7 @@ def run(ctx):
                 ctx.violation(f"tasks-alive:exit:{proc}", dict(inp, kind="exit-slow-handler"), "every task terminates at context exit", xs["tasks_at_end"][:5])
     # ------------- resets in error states: the manager's own reset from inside the ping-loop task / a user reset, client handler yielding or not
     for sc in ERROR_SCENARIOS:
-        for origin in ("self", "user"):
+        for origin in ("self", "user") + (("handler",) if sc == "rf-fault" else ()):
             for yielding in (False, True):
                 e = explore_error(sc, origin, yielding)
                 ctx.count("evaluations")
@@ -437,6 +447,9 @@ def run(ctx):
                     ctx.count("self_reset_not_from_spa_task")
                 if e["endpoint_open"]:
                     ctx.violation(f"endpoint-open:error-reset:{tag}", inp, "every endpoint of the abandoned connection is closed", f"{len(e['endpoint_open'])} still open; reset {e['reset_outcomes']}")
+                if e.get("alive_2s"):
+                    ctx.violation(f"tasks-linger:error-reset:{tag}", inp, "every background task of the abandoned connection terminates promptly (gone 2 s after the reset)",
+                                  e["alive_2s"][:5])
                 if e["tasks_alive"]:
                     ctx.violation(f"tasks-alive:error-reset:{tag}", inp, "every background task of the abandoned connection terminates", e["tasks_alive"][:5])
                 if e["observers_left"]:
@@ -445,6 +458,8 @@ def run(ctx):
                     ctx.violation(f"late-callback:error-reset:{tag}", inp, "late datagrams invoke no client observer", e["late_callbacks"])
                 if not e["pump_alive"]:
                     ctx.violation(f"pump-dead:error-reset:{tag}", inp, "the manager keeps working after a reset", "sequence pump finished")
+                if origin == "handler":
+                    continue
                 lines.append(f"errreset {origin} {int(yielding)}")
                 impl.append(show(e["endpoint_open"], e["tasks_alive"], e["observers_left"], e["pump_alive"]) + f" completed={int(e['reset_outcomes'][0] == 'returned')}")
     # ------------- commands of the same kind in flight when the connection is abandoned
